@@ -105,7 +105,8 @@ func (h vhHandler) HandlePrecommitProofs(_ context.Context, p tmconsensus.Precom
 }
 
 // VH_C20_TopicValidator: the closure returned by (*Connection).libp2pConsensusMessageValidator.
-// Nondeterministic: sender (self / other peer), decode failure, which fields the decoded
+// Nondeterministic: delivering peer (self = our own publication / another peer), the origin the
+// message claims in its From field (self / other, independently), decode failure, which fields the decoded
 // message has (all 8 subsets), handler nil or present, the handler's verdict (any uint8,
 // independent per method). For a message from another peer:
 //   Accept  =>  decoding succeeded, a handler is installed, exactly one handler method was
@@ -141,8 +142,14 @@ func VH_C20_TopicValidator() {
 	if fromSelf {
 		from = self
 	}
+	// the origin the message CLAIMS (its From field) is independent of the peer that delivered
+	// it: a peer may replay a message this node authored, or forge the field
+	origin := other
+	if verifrt.Choose("origin-claims-self", 2) == 1 {
+		origin = self
+	}
 	data := []byte{0xde, 0xad}
-	msg := &pubsub.Message{Message: &pb.Message{Data: data, From: []byte(from)}, ReceivedFrom: from}
+	msg := &pubsub.Message{Message: &pb.Message{Data: data, From: []byte(origin)}, ReceivedFrom: from}
 
 	var r pubsub.ValidationResult
 	if !verifrt.NoPanic("V:topic-validator-panics", func() {
